@@ -38,6 +38,7 @@ type EntryCfg struct {
 	MaxPaths            int               `json:"max_paths"`
 	Bounds              string            `json:"bounds"`
 	InitAllow           []string          `json:"init_allow"`
+	NativeReplay        *bool             `json:"native_replay"`
 	Opaque              []string          `json:"opaque"`
 }
 
@@ -422,11 +423,15 @@ func mergeStats(dst, src *solver.Stats) {
 }
 
 func (e *Engine) runPath(sol *solver.Session, fn *ssa.Function, cfg *EntryCfg, prefix []int) (pr *PathResult) {
+	return e.runPathOpts(sol, fn, cfg, prefix, nil)
+}
+
+func (e *Engine) runPathOpts(sol *solver.Session, fn *ssa.Function, cfg *EntryCfg, prefix []int, pinned []ModelVal) (pr *PathResult) {
 	sol.Reset()
 	pr = &PathResult{Funcs: map[string]bool{}, Stubs: map[string]bool{}}
 	m := &Machine{eng: e, sol: sol, prefix: prefix, res: pr, cfg: cfg,
 		globals: map[*ssa.Global]*Value{}, inited: map[*ssa.Package]bool{}, natives: map[*Value]*Native{},
-		rpc: map[*Value]*rpcServer{}}
+		rpc: map[*Value]*rpcServer{}, pinned: pinned, pinnedOn: pinned != nil}
 	defer func() {
 		pr.Decisions = m.trace
 		pr.Steps = m.steps
@@ -572,7 +577,11 @@ func (m *Machine) modelVals() []ModelVal {
 				}
 			}
 		}
-		out = append(out, ModelVal{Tag: n.Tag, Kind: n.Kind, Val: s})
+		mv := ModelVal{Tag: n.Tag, Kind: n.Kind, Val: s}
+		if raw := termGoVal(v, n.Kind); raw != s {
+			mv.Raw = raw
+		}
+		out = append(out, mv)
 	}
 	return out
 }
@@ -676,4 +685,29 @@ func HarnessOverlay(repo, pkgDir, harnessDirs string, symbolic bool) (map[string
 		}
 	}
 	return ov, nil
+}
+
+// ReplayPinned re-executes the path of a counterexample with every symbolic
+// input pinned to the model's value and reports whether the labelled assertion
+// is violated again. Used for entries whose environment cannot be built
+// natively; the final query is re-decided by the fallback portfolio as well.
+func (e *Engine) ReplayPinned(cfg *EntryCfg, v *Violation) (bool, string) {
+	fn := e.pkg.Func(cfg.Func)
+	if fn == nil {
+		return false, "entry not found"
+	}
+	sol, err := solver.New(e.TimeoutMS)
+	if err != nil {
+		return false, err.Error()
+	}
+	defer sol.Close()
+	sol.Portfolio = true
+	sol.CrossEach = 1
+	pr := e.runPathOpts(sol, fn, cfg, v.Decisions, v.Model)
+	for _, a := range pr.Asserts {
+		if a.Label == v.Label && a.Verdict == "VIOLATED" {
+			return true, fmt.Sprintf("pinned re-execution violated %s again (cross-solver checks: %d, disagreements: %d)", v.Label, sol.Stats.CrossChecks, sol.Stats.CrossDiffs)
+		}
+	}
+	return false, fmt.Sprintf("pinned re-execution ended %s (%s) without violating %s", pr.End, pr.Msg, v.Label)
 }
